@@ -27,8 +27,10 @@ RULE = ("seeded cover-labelled networks of 1-6 motifs (K2-K4, C4, C5, diamond, p
         "repeats) on one object, each compared with a fresh object and with a reference fixed point; operand faults "
         "abort a query mid-sweep; non-trivial = >= 2 motifs and >= 2 queries; distinct = distinct execution digests")
 ASSUMPTIONS = ["reference: own bookkeeping of motif membership, brute-force motif expectation, Jacobi sweeps to |delta| < 1e-13",
-               "fixed-point comparison (1e-6) only when the reference itself is within 1e-9 of its limit after at most "
-               "(iterations - 2) / 2 sweeps: the 'away from slow convergence' guard, evaluated per query",
+               "fixed-point comparison (1e-6) only when BOTH the in-place and the Jacobi reference are within 1e-9 of their limits "
+               "after at most (iterations - 2) / 2 sweeps AND the two limits agree: on finite loopy covers the disciplines can "
+               "reach different fixed points from the 0.5 start (probe fixed_point_depends_on_sweep_discipline), and then only "
+               "the transient clause is judged",
                "transient clause: the value after k sweeps from the 0.5 start must match the message equations swept either in "
                "place in the graph's edge order or Jacobi-style (1e-9); exact for every iteration count, no convergence guard",
                "finite covers with leaf motifs decay to the trivial fixed point S=0, so 45% of the networks are leaf-free rings; "
@@ -269,19 +271,28 @@ class Reference:
             tot += p
         return 1.0 - tot / self.n
 
-    def solve(self, phi, max_sweeps=400):
-        """Returns (limit value, sweeps needed to be within 1e-9 of the limit value)."""
-        H = {(v, t): 0.5 for t, m in enumerate(self.motifs) for v in m["verts"]}
+    def solve(self, phi, edge_order=None, in_place=False, max_sweeps=400):
+        """Iterate one sweep discipline from the 0.5 start.  Returns (limit value, sweeps needed to be within
+        1e-9 of it, converged).  On finite covers with loops the limit can depend on the discipline (measured:
+        in-place and Jacobi sweeps reach different fixed points on the same network), so callers must not assume
+        it is unique."""
+        H = self.start()
         vals = [self.value(H)]
+        delta = 1.0
         for s in range(max_sweeps):
-            new = self.sweep(H, phi)
-            delta = max(abs(new[k] - H[k]) for k in H)
-            H = new
+            old = dict(H)
+            if in_place:
+                for t, (a, b) in edge_order:
+                    H[(a, t)] = self.message(H, t, a, phi)
+                    H[(b, t)] = self.message(H, t, b, phi)
+            else:
+                H = self.sweep(H, phi)
+            delta = max(abs(H[k] - old[k]) for k in H)
             vals.append(self.value(H))
             if delta < 1e-13:
                 break
         limit = vals[-1]
-        converged = bool(vals) and delta < 1e-13
+        converged = delta < 1e-13
         need = next((s for s in range(len(vals)) if all(abs(x - limit) <= 1e-9 for x in vals[s:])), len(vals))
         return limit, need, converged
 
@@ -346,18 +357,28 @@ def execute(sc, ctx):
             ctx.violate(f"{P}.transient", f"value {val!r} after {iters} sweeps from the 0.5 start; the message equations give "
                                           f"{t_gs!r} (edges swept in place) or {t_ja!r} (Jacobi){tag}")
             return
-        limit, need, converged = ref.solve(phi)
-        if abs(limit) > 1e-6 and abs(limit - 1.0) > 1e-6:
-            ctx.probe("reference_limit_nontrivial")
-        if converged and iters >= 2 * need + 2:
+        # converged fixed point.  The limit reached from the 0.5 start can depend on the sweep discipline on finite
+        # loopy covers (measured), and a guard can exclude the very discipline the library follows.  The clause is
+        # therefore judged ONLY when both disciplines converge well within the sweep count AND agree with each other
+        # (a discipline-independent attractor); otherwise `transient` - which pins the value exactly at every sweep
+        # count - is the deciding clause for this query.
+        sols = [ref.solve(phi, edge_order, in_place) for in_place in (True, False)]
+        ok = [conv and iters >= 2 * need + 2 for _, need, conv in sols]
+        lims = [l for l, _, _ in sols]
+        if all(c for _, _, c in sols) and abs(lims[0] - lims[1]) > 1e-6:
+            ctx.probe("fixed_point_depends_on_sweep_discipline")
+        if all(ok) and abs(lims[0] - lims[1]) <= 1e-7:
+            limit = lims[0]
+            nontriv = abs(limit) > 1e-6 and abs(limit - 1.0) > 1e-6
             ctx.probe("fixedpoint_compared")
-            if abs(limit) > 1e-6 and abs(limit - 1.0) > 1e-6:
+            if nontriv:
+                ctx.probe("reference_limit_nontrivial")
                 ctx.probe("fixedpoint_compared_nontrivial")
             ctx.expect(f"{P}.fixedpoint", abs(val - limit) <= 1e-6,
-                       lambda: f"value {val!r} but the fixed point of the message equations gives {limit!r} "
-                               f"(reference within 1e-9 after {need} sweeps){tag}")
+                       lambda: f"value {val!r} but the fixed point of the message equations (same limit for in-place and Jacobi "
+                               f"sweeps from the 0.5 start) is {limit!r}{tag}")
         else:
-            ctx.probe("fixedpoint_skipped_slow_convergence")
+            ctx.probe("fixedpoint_skipped_slow_or_discipline_dependent")
         ctx.result(k, phi, round(val, 10))
     if sc.get("mono_grid"):
         obj = fresh()
